@@ -202,6 +202,43 @@ def audit(prop, required):
                 problems=problems, theorems=names, modules=mods)
 
 
+def leanchecker(prop):
+    """thorough tier: independent re-check of the compiled property module (and everything it imports)"""
+    t0 = time.time()
+    rc, out = _run(["lake", "env", "leanchecker", f"PycsepVerif.Properties.{prop}"], cwd=LEAN, timeout=3000)
+    return rc == 0, out[-1500:], time.time() - t0
+
+
+def validate_soft64(run, rng, n=2000):
+    """bit-exact comparison of Soft64 (+ - * / fl64 on Rat) with numpy float64 on random and boundary operands.
+    A disagreement is a harness error for the trusted base (raises), not a property verdict."""
+    import numpy
+    drv, exp = Driver(), []
+    specials = [0.0, 1.0, -1.0, 0.1, 0.5, 1e-300, 5e-324, 2.0 ** -1022, 1.7e308 / 4, 1 - 2.0 ** -53, 1 + 2.0 ** -52,
+                3.0, 1e16, 123456.789]
+    def pick():
+        k = rng.random()
+        if k < 0.2:
+            return rng.choice(specials) * rng.choice([1, -1])
+        if k < 0.6:
+            return rng.uniform(-1000, 1000)
+        return (rng.random() - 0.5) * 10.0 ** rng.randint(-30, 30)
+    for _ in range(n):
+        a, b = numpy.float64(pick()), numpy.float64(pick())
+        for op, f in (("fadd", a + b), ("fsub", a - b), ("fmul", a * b)):
+            if numpy.isfinite(f):
+                drv.ask(f"{op} {frac(a)} {frac(b)}"); exp.append((op, a, b, f))
+        if b != 0 and numpy.isfinite(a / b):
+            drv.ask(f"fdiv {frac(a)} {frac(b)}"); exp.append(("fdiv", a, b, a / b))
+        x = Fraction(float(a)) / 3 + Fraction(float(b)) / 7
+        drv.ask(f"fl64 {frac(x)}"); exp.append(("fl64", x, None, x.numerator / x.denominator))
+    out = drv.run()
+    bad = [(e, o) for e, o in zip(exp, out) if Fraction(o) != Fraction(float(e[3]))]
+    run.extra["soft64_ops_validated"] = len(exp)
+    if bad:
+        raise RuntimeError(f"Soft64 disagrees with numpy float64 on {len(bad)} ops, e.g. {bad[0]}")
+
+
 class Driver:
     """batch interface to the native Lean driver: queue request lines, run once, read responses."""
 
@@ -383,6 +420,12 @@ def main(argv):
             mod.replay(run, payload)
         else:
             mod.run(run, Rng(seed, prop), a.tier)
+        if a.tier == "thorough" and aud["ok"]:
+            ok2, out2, s2 = leanchecker(prop)
+            run.extra["leanchecker"] = dict(ok=ok2, seconds=round(s2, 1))
+            if not ok2:
+                aud["ok"] = False
+                aud["problems"].append("leanchecker rejected the compiled module: " + out2)
         if not aud["ok"]:
             # proof obligation broken: the harness's oracle over the generated cases was the failing-input
             # search; if it found nothing, report with no-failing-input-found and name what broke
